@@ -1,7 +1,8 @@
 (* Properties/C40.v — Log queries return exactly the matching canonical logs.
    Property theorems only, about the model Chain/LogIndex.v of /repo/core/filtermaps and
    /repo/eth/filters/filter.go; each closed by [exact] of a lemma of
-   Chain/LogIndexProofs.v, LogIndexSeq.v, LogIndexQuery.v, LogIndexLayout.v, LogIndexExact.v.
+   Chain/LogIndexProofs.v, LogIndexSeq.v, LogIndexQuery.v, LogIndexLayout.v, LogIndexExact.v,
+   LogIndexHistory.v.
 
    The row and column hash functions are arbitrary ([row_hash], [col_index]); the only
    hypothesis on them is [col_high]: the bits of a column index above hashBits are
@@ -22,10 +23,20 @@
    Hypotheses: [col_high], baseRowLength < 2^32, every log has at most valuesPerMap values,
    [rg_ok] / [index_ok] (shown to hold for the index built from the chain at its idle
    range: C40_idle_range_ok).
-   NOT proved (correspondence only): that the real indexer's head rendering, tail
-   unindexing and reorg handling keep [index_ok]/[rg_ok] (see C40_* history theorems below
-   for the abstract indexer operations, if present), queries racing the indexer. *)
-From GV Require Import Lib.Tactics Chain.LogIndex Chain.LogIndexProofs Chain.LogIndexSeq Chain.LogIndexQuery Chain.LogIndexLayout Chain.LogIndexExact.
+   INDEXER PROGRESS: the invariant ([inv] = chain pointers + rendered rows on the indexed
+   maps + well-formed range) is preserved by the three operations that change the index,
+   modelled at map/epoch granularity: head rendering towards a new target chain that
+   shares a prefix with the old one (extension or reorg; maps before the restart map are
+   kept, later ones re-rendered, future entries removed), tail epoch unindexing
+   (deleteTailEpoch incl. Range.SetFirst) and tail epoch indexing — C40_inv_step,
+   C40_inv_init — hence THE PROPERTY at every state of every history of such operations:
+   C40_history_exact.
+   NOT proved (correspondence only): that the real renderer's batching, snapshots,
+   temp ranges and lastCanonicalMapBoundaryBefore realise these operations with their
+   guards (in particular: the restart map lies inside the shared prefix and the first
+   indexed block is shared); queries racing the indexer (the model's search session runs
+   on a frozen index). *)
+From GV Require Import Lib.Tactics Chain.LogIndex Chain.LogIndexProofs Chain.LogIndexSeq Chain.LogIndexQuery Chain.LogIndexLayout Chain.LogIndexExact Chain.LogIndexHistory.
 Local Open Scope N_scope.
 
 (* A value inserted at lv while rendering map m is among the potential matches the
@@ -213,6 +224,48 @@ Theorem C40_query_exact_idle :
 Proof. exact query_exact_idle. Qed.
 Print Assumptions C40_query_exact_idle.
 
+(* the index invariant holds initially (index built from the chain, idle range) ... *)
+Theorem C40_inv_init :
+  forall (P : params) (addr_value topic_value : N -> N)
+         (row_hash : N -> nat -> N -> N) (col_index : N -> N -> N)
+         fuel0 chain ix head history cutoff,
+  build_index P addr_value topic_value row_hash col_index fuel0 chain = Some ix ->
+  (forall b l, In b chain -> In l b -> log_len l <= vpm P) ->
+  N.of_nat (length chain) = head + 1 ->
+  (forall lv v, N.shiftr (col_index lv v) (p_hbits P) = lv mod vpm P) -> p_brl P < two32 ->
+  inv P addr_value topic_value row_hash col_index fuel0
+      (mkIState chain ix (idle_range P ix head history cutoff)).
+Proof. exact inv_init. Qed.
+Print Assumptions C40_inv_init.
+
+(* ... and is preserved by head rendering towards a new target chain (extension or
+   reorg), tail epoch unindexing and tail epoch indexing *)
+Theorem C40_inv_step :
+  forall (P : params) (addr_value topic_value : N -> N)
+         (row_hash : N -> nat -> N -> N) (col_index : N -> N -> N) fuel0 st st',
+  inv P addr_value topic_value row_hash col_index fuel0 st ->
+  istep P addr_value topic_value row_hash col_index fuel0 st st' ->
+  inv P addr_value topic_value row_hash col_index fuel0 st'.
+Proof. exact inv_step. Qed.
+Print Assumptions C40_inv_step.
+
+(* THE PROPERTY at every state reachable by a history of indexer operations: chains with
+   reorgs, head and tail of the index moving *)
+Theorem C40_history_exact :
+  forall (P : params) (addr_value topic_value : N -> N)
+         (row_hash : N -> nat -> N -> N) (col_index : N -> N -> N),
+  (forall lv v, N.shiftr (col_index lv v) (p_hbits P) = lv mod vpm P) ->
+  p_brl P < two32 ->
+  forall fuel0 fuel st0 st head addrs topics first last ms,
+  inv P addr_value topic_value row_hash col_index fuel0 st0 ->
+  isteps P addr_value topic_value row_hash col_index fuel0 st0 st ->
+  range_logs P addr_value topic_value row_hash col_index fuel (is_chain st) (is_ix st) (is_rg st)
+             head addrs topics first last = QOk ms ->
+  scan (is_chain st) addrs topics (match first with Some f => f | None => head end)
+                                  (match last with Some l => l | None => head end) = Some ms.
+Proof. exact history_exact. Qed.
+Print Assumptions C40_history_exact.
+
 (* non-vacuity: a concrete parameter set and hash functions satisfying [col_high]
    (8 values per map, 2 hash bits, rows of length 2 so the third equal value overflows to
    layer 1), a rendered map, and a filter that finds the log at index 9 *)
@@ -226,4 +279,12 @@ Example C40_nonvacuous_col_high :
   forall lv v, N.shiftr (demo_col lv v) (p_hbits demoP) = lv mod vpm demoP.
 Proof. exact demo_col_high. Qed.
 Example C40_nonvacuous_query : c40_demo_query = true.
+Proof. vm_compute. reflexivity. Qed.
+
+(* non-vacuity of the history theorems: the guard of a head rendering step that reorgs the
+   demo chain (fork at block 5, restart at map 2) holds, and along reorg -> unindex tail
+   epoch 1 -> index it again the ranges move as expected and the query equals the scan *)
+Example C40_nonvacuous_head_guard : head_guard demoP demo_st0 demo_new 2 5.
+Proof. exact demo_head_guard. Qed.
+Example C40_nonvacuous_history : c40_demo_history = true.
 Proof. vm_compute. reflexivity. Qed.
